@@ -80,7 +80,7 @@ Snl(nres, reqs) == Fix([Blank EXCEPT !.k = "SNL", !.res = nres, !.req = reqs])
 Info(p) == p.dl - p.h                \* len(send_pdu) - send_pdu.header_size
 
 \* ------------------------------------------------------------------ TransmissionControlObject.dequeue   tco.py:159-188
-\* s: socket record [kind, q, est, ack, rbusy, bsent]; m: miu_size (NoLimit = None); icv_size is 0 (no llcp-sec)
+\* s: socket record [kind, q, est, ack, rbusy, bsent, lsn (listening)]; m: miu_size (NoLimit = None); icv_size is 0 (no llcp-sec)
 TcoDeq(s, m) ==
     IF s.q = <<>> THEN [s |-> s, out |-> None]
     ELSE LET p == Head(s.q) IN
@@ -113,11 +113,15 @@ SockDeq(s, m) == CASE s.kind = "raw" -> TcoDeq(s, NoLimit)                  \* t
 
 \* ------------------------------------------------------------------ ServiceAccessPoint.dequeue / sendack   llc.py:137-154
 \* a: SAP record [t, addr, socks, sl]
+\* (since the fix "data sent right after accept() overtook the CC" listening sockets - they hold the CC PDUs of the
+\* connections they accepted - are served before the other sockets of the access point: sorted(), stable)
+SockOrder(a) == LET idx == [i \in 1..Len(a.socks) |-> i] IN
+                SelectSeq(idx, LAMBDA i : a.socks[i].lsn) \o SelectSeq(idx, LAMBDA i : ~a.socks[i].lsn)
 SapDeq(a, m) ==
     LET r == FoldLeft(LAMBDA acc, i : IF acc.out # None THEN acc
                                        ELSE LET d == SockDeq(acc.socks[i], m)
                                             IN [socks |-> [acc.socks EXCEPT ![i] = d.s], out |-> d.out],
-                      [socks |-> a.socks, out |-> None], [i \in 1..Len(a.socks) |-> i])
+                      [socks |-> a.socks, out |-> None], SockOrder(a))
     IN IF r.out # None THEN [a |-> [a EXCEPT !.socks = r.socks], out |-> r.out]
        ELSE IF a.sl # <<>> THEN [a |-> [a EXCEPT !.sl = Tail(@)], out |-> Head(a.sl)]
        ELSE [a |-> a, out |-> None]
@@ -253,7 +257,8 @@ LenIsLen    == phase \in {"sent", "done"} => LenIsLenP(fr)
 NoWaste     == phase \in {"sent", "done"} => (fr.agf => Len(fr.f) > 1)
 
 \* ------------------------------------------------------------------ model-checking actions
-Sock(kind, ack) == [kind |-> kind, q |-> <<>>, est |-> (kind = "dlc"), ack |-> ack, rbusy |-> FALSE, bsent |-> FALSE]
+Sock(kind, ack) == [kind |-> kind, q |-> <<>>, est |-> (kind = "dlc"), ack |-> ack, rbusy |-> FALSE, bsent |-> FALSE,
+                    lsn |-> FALSE]
 SapRec(addr, socks) == [t |-> "sap", addr |-> addr, socks |-> socks, sl |-> <<>>]
 SdRec == [t |-> "sd", addr |-> 1, socks |-> <<>>, sl |-> <<>>]
 
